@@ -1,3 +1,309 @@
+/-
+  C01 (rule part) helper proofs: `TransOffset` against the declarative rule-day specification
+  (Cctz/Spec/PosixRule.lean), 400-year periodicity of rule days, and the invariant of the year loop
+  of `ExtendTransitions`.
+-/
 import Cctz.Model.Tz
 import Cctz.Spec.PosixRule
 import Cctz.Spec.TableSem
+import Cctz.Proofs.Calendar
+import Cctz.Proofs.LoadSafe
+import Cctz.Proofs.RuMonth
+
+namespace Cctz.Ru
+open Cctz Cctz.Spec Cctz.Wd Cctz.Ld
+open Cctz.Tz (transOffset extendLoop ExtState rd Transition)
+
+/-! ### the month-offset tables -/
+
+theorem tables0 (m : Nat) (h1 : 1 ≤ m) (h2 : m ≤ 13) :
+    Gen.kMonthOffsets0.getD m 0 = (if m = 13 then 365 else daysBeforeMonth 1970 m) := by
+  have : m = 1 ∨ m = 2 ∨ m = 3 ∨ m = 4 ∨ m = 5 ∨ m = 6 ∨ m = 7 ∨ m = 8 ∨ m = 9 ∨ m = 10 ∨
+      m = 11 ∨ m = 12 ∨ m = 13 := by omega
+  rcases this with h|h|h|h|h|h|h|h|h|h|h|h|h <;> subst h <;> decide
+
+theorem tables1 (m : Nat) (h1 : 1 ≤ m) (h2 : m ≤ 13) :
+    Gen.kMonthOffsets1.getD m 0 = (if m = 13 then 366 else daysBeforeMonth 1972 m) := by
+  have : m = 1 ∨ m = 2 ∨ m = 3 ∨ m = 4 ∨ m = 5 ∨ m = 6 ∨ m = 7 ∨ m = 8 ∨ m = 9 ∨ m = 10 ∨
+      m = 11 ∨ m = 12 ∨ m = 13 := by omega
+  rcases this with h|h|h|h|h|h|h|h|h|h|h|h|h <;> subst h <;> decide
+
+/-! ### 400-year periodicity -/
+
+theorem posixWeekday_add_400 (y : Int) (d : Nat) : posixWeekday (y + 400) d = posixWeekday y d := by
+  simp only [posixWeekday, weekdayOfDay, dayNum_add_400]; omega
+
+theorem daysBeforeMonth_add_400 (y m : Int) : daysBeforeMonth (y + 400) m = daysBeforeMonth y m := by
+  simp only [daysBeforeMonth, isLeap_add_400]
+
+theorem ruleDay_add_400 (date : Posix.Date) (y : Int) : ruleDay date (y + 400) = ruleDay date y := by
+  simp only [ruleDay, julianDay, monthWeekDay, yearLen, isFeb29, monthOfYearDay, isLeap_add_400,
+    posixWeekday_add_400, daysBeforeMonth_add_400]
+
+theorem ruleInstant_add_400 (date : Posix.Date) (time off : Int) (y : Int) :
+    ruleInstant date time off (y + 400) = (ruleInstant date time off y).map (· + 12622780800) := by
+  simp only [ruleInstant, ruleDay_add_400, dayNum_add_400, Option.map_map]
+  congr 1; funext d; simp only [Function.comp]; omega
+
+/-! ### the `J` form: filtering February 29th out of the days of a year -/
+
+/-- the table of the 365 `Jn` days of a leap year -/
+theorem julian_leap_table :
+    ((List.range 365).all fun i =>
+      ((List.range 366).filter fun d => !(d == 59))[i]? == some (if i < 59 then i else i + 1)) = true := by
+  decide +kernel
+
+theorem julianDay_eq (y n : Int) (h1 : 1 ≤ n) (h2 : n ≤ 365) :
+    julianDay y n = some (if isLeap y = true ∧ 60 ≤ n then n.toNat else (n - 1).toNat) := by
+  unfold julianDay yearLen
+  by_cases hl : isLeap y = true
+  · have hp : (fun d => !isFeb29 y d) = fun d => !(d == 59) := by
+      funext d; simp only [isFeb29, hl, Bool.true_and]
+    have ht := julian_leap_table
+    simp only [List.all_eq_true, List.mem_range, beq_iff_eq] at ht
+    rw [hp]; simp only [hl, ↓reduceIte, true_and]
+    rw [ht (n - 1).toNat (by omega)]
+    congr 1
+    split <;> split <;> omega
+  · have hp : (fun d => !isFeb29 y d) = fun _ => true := by
+      funext d; simp only [isFeb29, hl, Bool.false_and, Bool.not_false]
+    rw [hp, List.filter_eq_self.2 (fun _ _ => rfl)]
+    simp only [hl, false_and, ↓reduceIte, Bool.false_eq_true]
+    rw [List.getElem?_range (by omega)]
+
+/-! ### `TransOffset` -/
+
+theorem tbl_len (leap : Bool) :
+    (if leap then Gen.kMonthOffsets1 else Gen.kMonthOffsets0).length = 14 := by
+  cases leap <;> rfl
+
+/-- the day count `TransOffset` computes, per date form -/
+def modelDays (leap : Bool) (w0 : Int) (date : Posix.Date) : Int :=
+  match date.fmt with
+  | .J => if !leap || date.a < 60 then date.a - 1 else date.a
+  | .N => date.a
+  | .M => mDays leap w0 date.a date.b date.c
+
+theorem transOffset_val (leap : Bool) (w0 : Int) (date : Posix.Date) (time : Int)
+    (h : date.fmt = .M → 1 ≤ date.a ∧ date.a ≤ 12) :
+    (transOffset leap w0 ⟨some date, some time⟩).val = modelDays leap w0 date * 86400 + time := by
+  unfold transOffset modelDays
+  cases hf : date.fmt
+  · have h3 : (getC Gen.kMonthOffsets1 3 0).val = 60 := by decide
+    simp only [rd, hf, Ck.bind_val, Ck.pure_val, chk64_val, Gen.kSecsPerDay, h3]
+    split <;> simp only [Ck.pure_val, chk64_val]
+  · simp only [rd, hf, Ck.bind_val, Ck.pure_val, chk64_val, Gen.kSecsPerDay]
+  · have hi : 0 ≤ date.a + b2i (date.b == 5) ∧ date.a + b2i (date.b == 5) <
+        ((if leap then Gen.kMonthOffsets1 else Gen.kMonthOffsets0).length : Nat) := by
+      rw [tbl_len]; unfold b2i; have := h hf; split <;> omega
+    unfold mDays
+    simp only [rd, hf, Ck.bind_val, Ck.pure_val, chk64_val, Gen.kSecsPerDay, getC_val_of_lt _ _ _ hi]
+    split <;> simp only [Ck.bind_val, chk64_val]
+
+theorem transOffset_safe (leap : Bool) (w0 : Int) (date : Posix.Date) (time : Int)
+    (h : date.fmt = .M → 1 ≤ date.a ∧ date.a ≤ 12) :
+    MemSafe (transOffset leap w0 ⟨some date, some time⟩).flags := by
+  rw [Ld.memSafe_iff_safe]
+  unfold transOffset
+  simp only [rd]
+  refine (safe_bind _ _).2 ⟨safe_pure _, ?_⟩
+  simp only [Ck.pure_val]
+  refine safe_bind_all ?_ fun _ => by safe_auto
+  cases hf : date.fmt
+  · simp only
+    refine safe_bind_all (safe_getC _ _ _ (by decide)) fun _ => ?_
+    refine safe_ite (fun _ => ?_) (fun _ => ?_) <;> safe_auto
+  · exact safe_pure _
+  · have hi : 0 ≤ date.a + b2i (date.b == 5) ∧ date.a + b2i (date.b == 5) <
+        ((if leap then Gen.kMonthOffsets1 else Gen.kMonthOffsets0).length : Nat) := by
+      rw [tbl_len]; unfold b2i; have := h hf; split <;> omega
+    simp only
+    refine safe_bind_all (safe_getC _ _ _ hi) fun _ => ?_
+    refine safe_bind_all (safe_chk64 _) fun _ => ?_
+    refine safe_ite (fun _ => ?_) (fun _ => ?_) <;> safe_auto
+
+theorem grammar_M {date : Posix.Date} (hg : DateInGrammar date) :
+    date.fmt = .M → 1 ≤ date.a ∧ date.a ≤ 12 := by
+  intro hf; unfold DateInGrammar at hg; rw [hf] at hg; exact ⟨hg.1, hg.2.1⟩
+
+/-- the declaratively selected day is the model's day count, in every year -/
+theorem ruleDay_eq_modelDays (date : Posix.Date) (y : Int) (hg : DateInGrammar date) :
+    ∃ d : Nat, ruleDay date y = some d ∧
+      (d : Int) = modelDays (isLeap y) (posixWeekday y 0) date := by
+  unfold DateInGrammar at hg
+  unfold ruleDay modelDays
+  cases hf : date.fmt <;> rw [hf] at hg <;> simp only
+  · rw [julianDay_eq y _ hg.1 hg.2]
+    refine ⟨_, rfl, ?_⟩
+    cases hl : isLeap y
+    · simp only [Bool.false_eq_true, false_and, ↓reduceIte, Bool.not_false, Bool.true_or]; omega
+    · simp only [true_and, Bool.not_true, Bool.false_or, decide_eq_true_eq]
+      split <;> split <;> omega
+  · refine ⟨date.a.toNat, ?_, by omega⟩
+    simp only [zeroBasedDay, hg.1, ↓reduceIte]
+  · exact monthWeekDay_eq_mDays y _ _ _ ⟨hg.1, hg.2.1⟩ ⟨hg.2.2.1, hg.2.2.2.1⟩ ⟨hg.2.2.2.2.1, hg.2.2.2.2.2⟩
+
+theorem transOffset_spec (date : Posix.Date) (time : Int) (y : Int) (hg : DateInGrammar date) :
+    ∃ d, ruleDay date y = some d ∧
+      (transOffset (isLeap y) (posixWeekday y 0) ⟨some date, some time⟩).val = (d : Int) * 86400 + time ∧
+      MemSafe (transOffset (isLeap y) (posixWeekday y 0) ⟨some date, some time⟩).flags := by
+  obtain ⟨d, h1, h2⟩ := ruleDay_eq_modelDays date y hg
+  exact ⟨d, h1, by rw [transOffset_val _ _ _ _ (grammar_M hg), h2], transOffset_safe _ _ _ _ (grammar_M hg)⟩
+
+/-! ### the year loop of `ExtendTransitions` -/
+
+def stepTrans (posix : Posix.TimeZone) (dstTi stdTi : Nat) (lastTime stdOff dstOff : Int) (s : ExtState) : Array Transition :=
+  let dstTime := s.jan1Time + (transOffset s.leap s.jan1Weekday posix.dstStart).val - stdOff
+  let stdTime := s.jan1Time + (transOffset s.leap s.jan1Weekday posix.dstEnd).val - dstOff
+  let dst : Transition := { unixTime := dstTime, typeIndex := dstTi }
+  let std : Transition := { unixTime := stdTime, typeIndex := stdTi }
+  let p := if dstTime < stdTime then (dst, std) else (std, dst)
+  if lastTime < p.2.unixTime then
+    (if lastTime < p.1.unixTime then s.trans.push p.1 else s.trans).push p.2
+  else s.trans
+
+def stepState (posix : Posix.TimeZone) (dstTi stdTi : Nat) (lastTime stdOff dstOff : Int) (s : ExtState) : ExtState :=
+  { trans := stepTrans posix dstTi stdTi lastTime stdOff dstOff s
+    lastYear := s.lastYear + 1
+    jan1Time := s.jan1Time + (getC Gen.kSecsPerYear (b2i s.leap) 0).val
+    jan1Weekday := cmod (s.jan1Weekday + (getC Gen.kDaysPerYear (b2i s.leap) 0).val) 7
+    leap := !s.leap && Tz.isLeap (s.lastYear + 1) }
+
+theorem extendLoop_zero (posix : Posix.TimeZone) (dstTi stdTi : Nat) (lastTime stdOff dstOff : Int) (s : ExtState) :
+    (extendLoop posix dstTi stdTi lastTime stdOff dstOff 0 s).val =
+      { s with trans := stepTrans posix dstTi stdTi lastTime stdOff dstOff s } := by
+  rw [extendLoop]; rfl
+
+theorem extendLoop_succ (posix : Posix.TimeZone) (dstTi stdTi : Nat) (lastTime stdOff dstOff : Int) (n : Nat) (s : ExtState) :
+    (extendLoop posix dstTi stdTi lastTime stdOff dstOff (n + 1) s).val =
+      (extendLoop posix dstTi stdTi lastTime stdOff dstOff n (stepState posix dstTi stdTi lastTime stdOff dstOff s)).val := by
+  rw [extendLoop]
+  simp only [Ck.bind_val, chk64_val, stepState, stepTrans]
+  congr 3
+
+theorem secsPerYear_val (l : Bool) : (getC Gen.kSecsPerYear (b2i l) 0).val = if l then 31622400 else 31536000 := by
+  cases l <;> rfl
+theorem daysPerYear_val' (l : Bool) : (getC Gen.kDaysPerYear (b2i l) 0).val = if l then 366 else 365 := by
+  cases l <;> rfl
+
+theorem tzIsLeap_eq (y : Int) : Tz.isLeap y = Spec.isLeap y := isLeapYear_eq y
+
+theorem isLeap_succ (y : Int) : (!isLeap y && isLeap (y + 1)) = isLeap (y + 1) := by
+  cases h : isLeap y
+  · simp
+  · cases h2 : isLeap (y + 1)
+    · simp
+    · rw [isLeap_iff] at h h2; omega
+
+theorem dayNum_succ_year (y : Int) : dayNum (y + 1) 1 1 = dayNum y 1 1 + (if isLeap y then 366 else 365) := by
+  simp only [dayNum, daysBeforeYear_succ, daysInYear, daysBeforeMonth, cumDays]
+  simp
+
+theorem posixWeekday_succ_year (y : Int) :
+    cmod (posixWeekday y 0 + (if isLeap y then 366 else 365)) 7 = posixWeekday (y + 1) 0 := by
+  have hr := posixWeekday_range y 0
+  rw [cmod_pos_lit _ 7 (by decide)]
+  simp only [posixWeekday, weekdayOfDay, dayNum_succ_year] at *
+  split <;> split <;> omega
+
+
+structure Inv (s : ExtState) (y : Int) : Prop where
+  year : s.lastYear = y
+  time : s.jan1Time = dayNum y 1 1 * 86400
+  wday : s.jan1Weekday = posixWeekday y 0
+  leap : s.leap = isLeap y
+
+theorem inv_step (posix : Posix.TimeZone) (dstTi stdTi : Nat) (lastTime stdOff dstOff : Int)
+    {s : ExtState} {y : Int} (h : Inv s y) :
+    Inv (stepState posix dstTi stdTi lastTime stdOff dstOff s) (y + 1) := by
+  obtain ⟨h1, h2, h3, h4⟩ := h
+  refine ⟨?_, ?_, ?_, ?_⟩
+  · simp only [stepState, h1]
+  · simp only [stepState, secsPerYear_val, h2, h4, dayNum_succ_year]
+    split <;> omega
+  · simp only [stepState, daysPerYear_val', h3, h4, posixWeekday_succ_year]
+  · simp only [stepState, h1, h4, tzIsLeap_eq, isLeap_succ]
+
+theorem extendLoop_lastYear (posix : Posix.TimeZone) (dstTi stdTi : Nat) (lastTime stdOff dstOff : Int)
+    (n : Nat) : ∀ (s : ExtState) (y : Int), Inv s y →
+      (extendLoop posix dstTi stdTi lastTime stdOff dstOff n s).val.lastYear = y + n := by
+  induction n with
+  | zero => intro s y h; rw [extendLoop_zero]; simp only [h.year]; omega
+  | succ n ih =>
+    intro s y h
+    rw [extendLoop_succ, ih _ _ (inv_step posix dstTi stdTi lastTime stdOff dstOff h)]
+    omega
+
+
+/-- the two rule instants of year `y`, as `C01Rule.yearPair` lists them -/
+def pairList (dstTi stdTi : Nat) (lastTime a b : Int) : List Transition :=
+  let dst : Transition := { unixTime := a, typeIndex := dstTi }
+  let std : Transition := { unixTime := b, typeIndex := stdTi }
+  let (ta, tb) := if a < b then (dst, std) else (std, dst)
+  if lastTime < tb.unixTime then (if lastTime < ta.unixTime then [ta, tb] else [tb]) else []
+
+theorem stepTrans_toList (posix : Posix.TimeZone) (dstTi stdTi : Nat) (lastTime stdOff dstOff : Int)
+    (s : ExtState) :
+    (stepTrans posix dstTi stdTi lastTime stdOff dstOff s).toList = s.trans.toList ++
+      pairList dstTi stdTi lastTime
+        (s.jan1Time + (transOffset s.leap s.jan1Weekday posix.dstStart).val - stdOff)
+        (s.jan1Time + (transOffset s.leap s.jan1Weekday posix.dstEnd).val - dstOff) := by
+  unfold stepTrans pairList
+  simp only
+  split <;> split <;> (try split) <;> simp_all
+
+theorem instant_eq (date : Posix.Date) (time off : Int) (y : Int) (hg : DateInGrammar date)
+    {s : ExtState} (h : Inv s y) :
+    ruleInstant date time off y =
+      some (s.jan1Time + (transOffset s.leap s.jan1Weekday ⟨some date, some time⟩).val - off) := by
+  obtain ⟨d, h1, h2, _⟩ := transOffset_spec date time y hg
+  rw [h.time, h.wday, h.leap, h2, ruleInstant, h1]
+  simp only [Option.pure_def, Option.bind_eq_bind, Option.bind_some, Option.map_some, Option.some.injEq]
+  omega
+
+
+/-- `C01Rule.yearPair` with the rule fields already read -/
+def yearPairL (sd : Posix.Date) (st : Int) (ed : Posix.Date) (et : Int) (dstTi stdTi : Nat)
+    (lastTime stdOff dstOff : Int) (y : Int) : List Transition :=
+  match ruleInstant sd st stdOff y, ruleInstant ed et dstOff y with
+  | some a, some b => pairList dstTi stdTi lastTime a b
+  | _, _ => []
+
+theorem stepTrans_yearPair (posix : Posix.TimeZone) (dstTi stdTi : Nat) (lastTime stdOff dstOff : Int)
+    (sd ed : Posix.Date) (st et : Int) (hs : posix.dstStart = ⟨some sd, some st⟩)
+    (he : posix.dstEnd = ⟨some ed, some et⟩) (gs : DateInGrammar sd) (ge : DateInGrammar ed)
+    {s : ExtState} {y : Int} (h : Inv s y) :
+    (stepTrans posix dstTi stdTi lastTime stdOff dstOff s).toList =
+      s.trans.toList ++ yearPairL sd st ed et dstTi stdTi lastTime stdOff dstOff y := by
+  rw [stepTrans_toList, yearPairL, instant_eq sd st stdOff y gs h, instant_eq ed et dstOff y ge h, hs, he]
+
+theorem flatMap_range_succ {α : Type} (f : Nat → List α) (n : Nat) :
+    (List.range (n + 1)).flatMap f = f 0 ++ (List.range n).flatMap fun k => f (k + 1) := by
+  rw [List.range_succ_eq_map, List.flatMap_cons, List.flatMap_map]
+
+theorem extendLoop_trans_list (posix : Posix.TimeZone) (dstTi stdTi : Nat) (lastTime stdOff dstOff : Int)
+    (sd ed : Posix.Date) (st et : Int) (hs : posix.dstStart = ⟨some sd, some st⟩)
+    (he : posix.dstEnd = ⟨some ed, some et⟩) (gs : DateInGrammar sd) (ge : DateInGrammar ed)
+    (n : Nat) : ∀ (s : ExtState) (y : Int), Inv s y →
+      (extendLoop posix dstTi stdTi lastTime stdOff dstOff n s).val.trans.toList =
+        s.trans.toList ++ (List.range (n + 1)).flatMap fun (k : Nat) =>
+          yearPairL sd st ed et dstTi stdTi lastTime stdOff dstOff (y + (k : Int)) := by
+  induction n with
+  | zero =>
+    intro s y h
+    rw [extendLoop_zero]
+    simp only [stepTrans_yearPair posix dstTi stdTi lastTime stdOff dstOff sd ed st et hs he gs ge h]
+    simp [List.range_succ]
+  | succ n ih =>
+    intro s y h
+    have h' := inv_step posix dstTi stdTi lastTime stdOff dstOff h
+    rw [extendLoop_succ, ih _ _ h', flatMap_range_succ _ (n + 1)]
+    have : (stepState posix dstTi stdTi lastTime stdOff dstOff s).trans =
+        stepTrans posix dstTi stdTi lastTime stdOff dstOff s := rfl
+    rw [this, stepTrans_yearPair posix dstTi stdTi lastTime stdOff dstOff sd ed st et hs he gs ge h,
+      List.append_assoc]
+    congr 2
+    · simp
+    · congr 1; funext k; congr 1; simp only [Int.natCast_add, Int.cast_ofNat_Int]; omega
+
+end Cctz.Ru
